@@ -175,6 +175,9 @@ func checkInput(c *common.Ctx, input, class string) {
 	if anyFail && stage == "parse" {
 		history(c, input)
 	}
+	if anyFail && stage != "parse" {
+		lexHistory(c, input)
+	}
 	if anyFail {
 		c.NonTrivial()
 	} else {
@@ -186,6 +189,66 @@ var (
 	nestProbe     string
 	nestProbeToks []models.TokenWithSpan
 )
+
+// lexHistory is the history clause for inputs the tokenizer rejects: one Tokenizer object (as a holder reuses it, and as the
+// pool hands it on) first tokenizes a primer - texts whose line structure, tabs and length differ from the input's - and then
+// the rejected input, bare and pushed right by blanks beyond the primer's length, through both tokenizing entry points.
+// Code, message and location must be those a new tokenizer reports.
+var lexPrimers = []string{"\tSELECT 1", "SELECT a,\n\tb,\n\t\tc\nFROM t -- x", "/* c\n c */ SELECT '\n\n'", "SELECT 'unterminated", ""}
+
+func lexHistory(c *common.Ctx, input string) {
+	type tokFn struct {
+		name string
+		run  func(t *tokenizer.Tokenizer, b []byte) error
+	}
+	fns := []tokFn{
+		{"Tokenize", func(t *tokenizer.Tokenizer, b []byte) error { _, err := t.Tokenize(b); return err }},
+		{"TokenizeContext", func(t *tokenizer.Tokenizer, b []byte) error {
+			_, err := t.TokenizeContext(context.Background(), b)
+			return err
+		}},
+	}
+	for _, pad := range []string{"", "            ", "\n\n   "} {
+		text := []byte(pad + input)
+		for _, second := range fns {
+			fresh, _ := tokenizer.New()
+			want := second.run(fresh, text)
+			if want == nil {
+				continue
+			}
+			ow := observe(want)
+			for pi, primer := range lexPrimers {
+				for _, first := range fns {
+					for _, via := range []string{"held", "pool"} {
+						var t *tokenizer.Tokenizer
+						if via == "held" {
+							t, _ = tokenizer.New()
+							_ = first.run(t, []byte(primer))
+						} else {
+							p := tokenizer.GetTokenizer()
+							_ = first.run(p, []byte(primer))
+							tokenizer.PutTokenizer(p)
+							t = tokenizer.GetTokenizer()
+						}
+						got := second.run(t, text)
+						if via == "pool" {
+							tokenizer.PutTokenizer(t)
+						}
+						c.Count("lexical_histories", 1)
+						if got == nil {
+							c.Fail("history-dependent:reused-tokenizer:"+second.name, fmt.Sprintf("after %s of primer %d (%s) %s accepts what a new tokenizer rejects with %v", first.name, pi, via, second.name, want))
+							return
+						}
+						if o := observe(got); o.code != ow.code || o.msg != ow.msg || o.loc != ow.loc {
+							c.Fail("history-dependent:reused-tokenizer:"+second.name, fmt.Sprintf("after %s of primer %d %q (%s) %s of %q reports %v, a new tokenizer %v", first.name, pi, primer, via, second.name, string(text), got, want))
+							return
+						}
+					}
+				}
+			}
+		}
+	}
+}
 
 // history evaluates "the same input always produces the same code, message and location" and "limit codes for limit
 // violations only" across a history instead of across two fresh calls: a rejected input is followed, on the same
@@ -283,7 +346,7 @@ func Check() *common.Check {
 		// every case is recorded before it runs: a fatal error or a hang of the worker is attributed to it
 		CrashSafe: true,
 		Rule: "inputs: every single-token deletion, duplication and replacement (13 tokens, one of every lexical kind) of a spread of 300 (quick) / 2000 (thorough) sqlgen statements; all fragment strings of length <=3 (quick) / <=4 (thorough) over lexgen's 37-fragment lexical alphabet (bad escapes, unterminated literals, lone punctuation, control bytes); " +
-			"nesting beyond the depth limit in 6 constructs; an input one byte over the size limit; each through 10 failing-capable entry points; every input the parser (not the tokenizer) rejects is also run as a history: rejected input, a statement exactly at the nesting limit, the rejected input again - on one Parser object, and with five other calls in between (ParseContext under a context done at entry / with a passed deadline / cancelled mid-statement, a recovering parse, a parse without positions) and (first two) inside one recovery call. distinct = distinct input text; non-trivial = at least one entry point rejects the input",
+			"nesting beyond the depth limit in 6 constructs; an input one byte over the size limit; each through 10 failing-capable entry points; every input the parser (not the tokenizer) rejects is also run as a history: rejected input, a statement exactly at the nesting limit, the rejected input again - on one Parser object, and with five other calls in between (ParseContext under a context done at entry / with a passed deadline / cancelled mid-statement, a recovering parse, a parse without positions) and (first two) inside one recovery call. every input the tokenizer rejects is also run as a lexical history: one Tokenizer object (held, or handed on by the pool) tokenizes one of 5 primers through Tokenize / TokenizeContext and then the input, bare and behind two paddings, through both. distinct = distinct input text; non-trivial = at least one entry point rejects the input",
 		Assume: []string{"stage of a failure = whether tokenizer.Tokenize alone rejects the input", "message template = message with quoted/numeric parts removed, first five words before the first colon"},
 		Enumerate: func(e *common.Enum) {
 			seen := map[string]bool{}
